@@ -313,6 +313,9 @@ func TestCheck(t *testing.T) {
 		if res.Panic != nil {
 			rep.Violate(map[string]any{"kind": "panic-escaped", "case_kind": cs.Kind, "proto": cs.Proto}, map[string]any{"case": cs}, "case %s: panic %v\n%s", cs, res.Panic, res.Stack)
 		}
+		if res.Hang != "" {
+			rep.Violate(map[string]any{"kind": "hang", "case_kind": cs.Kind, "proto": cs.Proto}, map[string]any{"case": cs}, "case %s: %s", cs, res.Hang)
+		}
 		if rep.NumViolations() > 30 {
 			break
 		}
